@@ -2,6 +2,7 @@ package catalog
 
 import (
 	"encoding/json"
+	"fmt"
 	"sync"
 
 	"github.com/jsightapi/jsight-schema-core/bytes"
@@ -24,9 +25,25 @@ type ExchangeRegexSchema struct {
 // same schema gives the same result.
 func (e *ExchangeRegexSchema) Example() ([]byte, error) {
 	e.exampleOnce.Do(func() {
+		defer func() {
+			// The generator panics, for example, on a character class which matches nothing.
+			if r := recover(); r != nil {
+				e.example, e.exampleErr = nil, fmt.Errorf("an example cannot be generated for the regular expression: %v", r)
+			}
+		}()
 		e.example, e.exampleErr = e.RSchema.Example()
 	})
 	return e.example, e.exampleErr
+}
+
+// Check checks the regular expression and that an example can be generated for it,
+// so that both are reported when the catalog is built, not when it is serialised.
+func (e *ExchangeRegexSchema) Check() error {
+	if err := e.RSchema.Check(); err != nil {
+		return err
+	}
+	_, err := e.Example()
+	return err
 }
 
 func (e *ExchangeRegexSchema) MarshalJSON() ([]byte, error) {
